@@ -54,8 +54,8 @@ def _t_opneg(c):
 # ---------------------------------------------------------------------------------------------
 BINARY = {
     "add": ((-2, 2), True), "subtract": ((-2, 2), True), "multiply": ((-2, 2), True),
-    "divide": ((0.4, 2.5), True), "true_divide": ((0.4, 2.5), True), "maximum": ((-2, 2), False),
-    "minimum": ((-2, 2), False), "fmax": ((-2, 2), False), "fmin": ((-2, 2), False),
+    "divide": ((0.4, 2.5), True), "true_divide": ((0.4, 2.5), True), "maximum": ((-2, 2), True),
+    "minimum": ((-2, 2), True), "fmax": ((-2, 2), True), "fmin": ((-2, 2), True),
     "logaddexp": ((-2, 2), False), "logaddexp2": ((-2, 2), False), "power": ((0.4, 2.5), True),
     "arctan2": ((0.4, 2.5), False), "hypot": ((0.4, 2.5), False),
 }
